@@ -2,6 +2,7 @@ package main
 
 import (
 	"context"
+	"encoding/json"
 	"fmt"
 	"net/url"
 	"os"
@@ -80,6 +81,49 @@ func c07Hand(r *lp.Run) {
 		}
 	}
 
+	// (1a) a security scheme reached through a reference keeps its extensions (fixed bc7e304b)
+	{
+		doc := func(key string) string {
+			return `{"openapi":"3.0.3","info":{"title":"t","version":"1"},"paths":{"/x":{"get":{"operationId":"x","security":[{"key":[]}],"responses":{"200":{"description":"ok"}}}}},"components":{"securitySchemes":{"key":` + key + `,"real":{"type":"apiKey","in":"header","name":"X-Key","x-ogen-custom-security":true}}}}`
+		}
+		var a, b string
+		var ea, eb error
+		a, ea = parseProject(parseJSONDoc(doc(`{"$ref":"#/components/securitySchemes/real"}`)))
+		b, eb = parseProject(parseJSONDoc(doc(`{"type":"apiKey","in":"header","name":"X-Key","x-ogen-custom-security":true}`)))
+		r.PropCheck()
+		r.Count("c07 hand secref", "hand:security-ref", true)
+		if ea != nil || eb != nil || a != b || !strings.Contains(a, "custom=true") {
+			r.Fail(lp.PropFail{Property: "C07", What: "a security scheme reached through a reference is not parsed like its copy in place", Input: doc(`{"$ref":"#/components/securitySchemes/real"}`), Observed: truncN(fmt.Sprint(a, ea), 400), Expected: truncN(fmt.Sprint(b, eb), 400)})
+		}
+	}
+	// (1c) a reference to a whole document (no fragment) can be parsed; K35: it cannot be expanded
+	{
+		root := `{"openapi":"3.0.3","info":{"title":"t","version":"1"},"paths":{"/x":{"get":{"operationId":"x","responses":{"200":{"$ref":"resp.json"}}}}}}`
+		files := pathResolver{"/s/api.json": root, "/s/resp.json": `{"description":"ok","content":{"application/json":{"schema":{"type":"string"}}}}`}
+		var perr, eerr error
+		lp.Guard(func() string {
+			sp, err := ogen.Parse([]byte(root))
+			if err != nil {
+				perr = err
+				return ""
+			}
+			api, err := parser.Parse(sp, parser.Settings{External: files, RootURL: &url.URL{Scheme: "file", Path: "/s/api.json"}})
+			if err != nil {
+				perr = err
+				return ""
+			}
+			_, eerr = parser.Expand(api)
+			return ""
+		})
+		r.PropCheck()
+		r.Count("c07 hand wholedoc", "hand:whole-document-ref", true)
+		switch {
+		case perr != nil:
+			r.Fail(lp.PropFail{Property: "C07", What: "a reference to a whole document is not parsed", Input: map[string]any{"api.json": root}, Observed: perr.Error(), Expected: "parsed like the response in place"})
+		case eerr != nil:
+			r.Known(lp.PropFail{Property: "C07", Class: "K35", What: "a document with a reference to a whole file cannot be expanded", Input: map[string]any{"api.json": root}, Observed: truncN(eerr.Error(), 300), Expected: "a single document that parses to the same API"})
+		}
+	}
 	// (1b) the outcome of parsing does not depend on the order in which components are met, and a reference
 	// is accepted exactly when the copy is
 	for _, pc := range []struct{ name, withRef, withCopy, class string }{
@@ -173,6 +217,26 @@ func c07Hand(r *lp.Run) {
 			wrap(op(`"200":{"description":"ok","content":{"application/json":{"schema":{"$ref":"#/components/schemas/T"}}}}`), `{"schemas":{"T":{"type":"array","items":[{"$ref":"#/components/schemas/T"},{"type":"string"}]}}}`),
 			wrap(op(`"200":{"description":"ok","content":{"application/json":{"schema":{"$ref":"#/components/schemas/T"}}}}`), `{"schemas":{"T":{"type":"array","items":[{"type":"array","items":{"type":"string"}},{"type":"string"}]}}}`), "K30"},
 	}
+	// a parameter component shared by two operations, one of which has a same-named parameter elsewhere: the
+	// other operation's parameter struct must be what it is with the parameter written in place (fixed)
+	paramDoc := func(opB string) string {
+		return wrap(`{"/a/{id}":{"get":{"operationId":"opA","parameters":[{"$ref":"#/components/parameters/QId"},{"name":"id","in":"path","required":true,"schema":{"type":"string"}}],"responses":{"200":{"description":"ok"}}}},"/b":{"get":{"operationId":"opB","parameters":[`+opB+`],"responses":{"200":{"description":"ok"}}}}}`,
+			`{"parameters":{"QId":{"name":"id","in":"query","schema":{"type":"string"}}}}`)
+	}
+	cases = append(cases, hc{"same-files: a shared parameter component next to a same-named path parameter in another operation",
+		paramDoc(`{"$ref":"#/components/parameters/QId"}`), paramDoc(`{"name":"id","in":"query","schema":{"type":"string"}}`), ""})
+	// valid recursive schemas must become recursive types (K34: two shapes that are refused as "infinite recursion")
+	recDoc := func(schemas string) string {
+		return wrap(`{"/x":{"post":{"operationId":"opX","requestBody":{"content":{"application/json":{"schema":{"$ref":"#/components/schemas/A"}}}},"responses":{"200":{"description":"ok"}}}}}`, `{"schemas":{`+schemas+`}}`)
+	}
+	for _, rc := range []struct{ name, doc, class string }{
+		{"a required member that leads into a cycle it is not part of", recDoc(`"A":{"type":"object","required":["b"],"properties":{"b":{"$ref":"#/components/schemas/B"}}},"B":{"type":"object","properties":{"c":{"$ref":"#/components/schemas/C"}}},"C":{"type":"object","properties":{"b":{"$ref":"#/components/schemas/B"}}}`), "K34"},
+		{"a required in-place member whose optional member closes the cycle", recDoc(`"A":{"type":"object","required":["b"],"properties":{"b":{"type":"object","properties":{"a":{"$ref":"#/components/schemas/A"}}}}}`), "K34"},
+		{"an optional in-place member whose required member closes the cycle", recDoc(`"A":{"type":"object","properties":{"b":{"type":"object","required":["a"],"properties":{"a":{"$ref":"#/components/schemas/A"}}}}}`), ""},
+		{"an optional member on a two-schema cycle", recDoc(`"A":{"type":"object","properties":{"b":{"$ref":"#/components/schemas/B"}}},"B":{"type":"object","required":["a"],"properties":{"a":{"$ref":"#/components/schemas/A"}}}`), ""},
+	} {
+		cases = append(cases, hc{"recursive: " + rc.name, rc.doc, rc.doc, rc.class})
+	}
 	type built struct {
 		c       hc
 		refPkg  *gc.Pkg
@@ -237,7 +301,23 @@ func c07Hand(r *lp.Run) {
 			return "compiles"
 		}
 		ro, co := outcome(b.refPkg, b.refErr, fmt.Sprintf("hr%d", i)), outcome(b.copyPkg, b.copyErr, fmt.Sprintf("hc%d", i))
+		if strings.HasPrefix(b.c.name, "recursive:") && ro != "compiles" {
+			f := lp.PropFail{Property: "C07", What: "a valid recursive schema does not become a recursive type", Input: map[string]any{"case": b.c.name, "document": b.c.withRef}, Observed: ro + fmt.Sprint(" ", b.refErr), Expected: "a package that compiles"}
+			if b.c.class != "" {
+				f.Class = b.c.class
+				r.Known(f)
+			} else {
+				r.Fail(f)
+			}
+			continue
+		}
 		if ro == co && ro != "does-not-compile" {
+			if ro == "compiles" && strings.HasPrefix(b.c.name, "same-files:") {
+				// the generated declarations must be the same, comment lines and the package clause aside
+				if d := c07DiffPkgs(b.refPkg, b.copyPkg); d != "" {
+					r.Fail(lp.PropFail{Property: "C07", What: "the code generated for a document with a reference differs from the code generated with a copy in its place", Input: map[string]any{"case": b.c.name, "with_reference": b.c.withRef, "with_copy": b.c.withCopy}, Observed: d, Expected: "the same declarations"})
+				}
+			}
 			continue
 		}
 		f := lp.PropFail{Property: "C07", What: "a document with a reference and the same document with a copy in its place are not generated alike", Input: map[string]any{"case": b.c.name, "with_reference": b.c.withRef, "with_copy": b.c.withCopy}, Observed: "with the reference: " + ro + fmt.Sprint(" ", b.refErr), Expected: "as with the copy: " + co + fmt.Sprint(" ", b.copyErr)}
@@ -248,4 +328,57 @@ func c07Hand(r *lp.Run) {
 		}
 		r.Fail(f)
 	}
+}
+
+func parseJSONDoc(s string) any {
+	var v any
+	if err := json.Unmarshal([]byte(s), &v); err != nil {
+		panic(err)
+	}
+	return v
+}
+
+// c07DiffPkgs compares the generated files of two packages line by line, skipping comments and the package clause.
+func c07DiffPkgs(a, b *gc.Pkg) string {
+	norm := func(p *gc.Pkg) map[string][]string {
+		out := map[string][]string{}
+		files, _ := filepath.Glob(filepath.Join(p.Dir, "oas_*_gen.go"))
+		for _, f := range files {
+			data, err := os.ReadFile(f)
+			if err != nil {
+				continue
+			}
+			var lines []string
+			for _, l := range strings.Split(string(data), "\n") {
+				t := strings.TrimSpace(l)
+				if t == "" || strings.HasPrefix(t, "//") || strings.HasPrefix(t, "package ") {
+					continue
+				}
+				lines = append(lines, l)
+			}
+			out[filepath.Base(f)] = lines
+		}
+		return out
+	}
+	fa, fb := norm(a), norm(b)
+	for name, la := range fa {
+		lb, ok := fb[name]
+		if !ok {
+			return "file " + name + " only with the reference"
+		}
+		for i := 0; i < len(la) && i < len(lb); i++ {
+			if la[i] != lb[i] {
+				return fmt.Sprintf("%s: %q vs %q", name, strings.TrimSpace(la[i]), strings.TrimSpace(lb[i]))
+			}
+		}
+		if len(la) != len(lb) {
+			return fmt.Sprintf("%s: %d vs %d lines", name, len(la), len(lb))
+		}
+	}
+	for name := range fb {
+		if _, ok := fa[name]; !ok {
+			return "file " + name + " only with the copy"
+		}
+	}
+	return ""
 }
